@@ -12,6 +12,7 @@ spec/ClassModel.tla (frame condition + functional dependence of the description 
 """
 import hashlib
 import json
+import os
 import random
 
 from ..core import emit_behaviours, model_check, pool_map, sany, validate_traces
@@ -58,12 +59,17 @@ def _plain_c(self, a):
 
 def _body_items(body):
     """class namespace entries for an abstract body (fresh objects on every call)"""
-    from frappy.core import Command, FloatRange, IntRange, Parameter, StringType
+    from frappy.core import ArrayOf, Command, FloatRange, IntRange, Parameter, StringType
     ns = {}
     p = body.get('p', '-')
     tab = {
         'new': lambda: Parameter('param p', FloatRange(0, 100, unit='K'), default=1, readonly=False),
         'newint': lambda: Parameter('param p int', IntRange(0, 7), default=1, readonly=False, group='g2'),
+        # arrays with DIFFERENT member types, datatype properties of the member given on the parameter
+        'arrf': lambda: Parameter('float array', ArrayOf(FloatRange(), 0, 4), unit='K', min=0, max=300, default=[],
+                                  readonly=False),
+        'arri': lambda: Parameter('int array', ArrayOf(IntRange(0, 100), 0, 4), max=50, default=[], readonly=False),
+        'arrs': lambda: Parameter('string array', ArrayOf(StringType(maxchars=6), 0, 4), default=[], readonly=False),
         'props': lambda: Parameter(max=50),
         'props2': lambda: Parameter(min=4, unit='V'),
         'ppty': lambda: Parameter('other description', group='gC'),
@@ -155,6 +161,8 @@ CFGS = {
     'pmaxK': {'p': {'max': 30, 'value': 4}, 'value': {'unit': 'K'}},
     'pvalmm': {'p': {'value': 5}, 'value': {'unit': 'mm'}},
     'arrmax': {'arr': {'max': 7}, 'value': {'unit': 'K'}},
+    'pmax40': {'p': {'max': 40}},                 # member property of an array through the configuration
+    'pminval': {'p': {'min': 1, 'value': [2, 3]}},
     'plim': {'p_limits': {'value': (2, 9)}},
     'scmax': {'sc': {'max': 6}},
     '-': {},
@@ -360,11 +368,11 @@ class World:
         elif not any(issubclass(b, Module) for b in bs):
             bs = bs + self.roots()
         self.n += 1
-        ns = _body_items(body)
-        if not bases and not body.get('mixin'):
-            ns.update(_composites())
-        ns['__module__'] = 'verif.c09'
-        try:
+        try:        # (writing down the class body is part of the definition: it may be refused as well)
+            ns = _body_items(body)
+            if not bases and not body.get('mixin') and not str(body.get('p', '')).startswith('arr'):
+                ns.update(_composites())        # (the array roots stay plain: they are compared in fresh processes)
+            ns['__module__'] = 'verif.c09'
             self.cls[x] = type('K%d' % self.n, bs, ns)
         except Exception as e:
             self.cls[x] = None
@@ -410,12 +418,31 @@ def _canon(v):
     return v if isinstance(v, str) else json.dumps(v, sort_keys=True)
 
 
+_TABLE_CLASSES = []
+
+
+def _tables():
+    """digest of the CLASS level property tables of all datatype / accessible classes (frame clause: defining or
+    instantiating a module class never changes what another class may declare)"""
+    if not _TABLE_CLASSES:
+        import frappy.datatypes as fd
+        import frappy.params as fp
+        for mod in (fd, fp):
+            for name, c in sorted(vars(mod).items()):
+                if isinstance(c, type) and isinstance(getattr(c, 'propertyDict', None), dict):
+                    _TABLE_CLASSES.append((name, c))
+    res = [(name, [(k, type(v.datatype).__name__, repr(v.default), v.mandatory, v.extname)
+                   for k, v in c.propertyDict.items()]) for name, c in _TABLE_CLASSES]
+    return hashlib.sha1(repr(res).encode()).hexdigest()[:12]
+
+
 def run_program(ops):
     """execute one program in a fresh world -> list of trace events (ids as given)"""
     w = World()
     errs = {}
     prev = {'_': '_'}
     events = []
+    tabs = _tables()
     for op in ops:
         act, x = op['act'], op['x']
         needed = list(op.get('bases', [])) + ([op['c']] if act == 'instantiate' else []) + \
@@ -441,6 +468,8 @@ def run_program(ops):
         if act == 'instantiate' or not events:       # (only creating an instance touches the configuration)
             conf = w.conf()
         ev['conf'] = conf
+        ev['tabsb'] = tabs
+        tabs = ev['tabsa'] = _tables()
         ev['bad'] = list(w.bad)
         # hint for the trace specification (TLC decides whether the deviation is admissible)
         ev['dev'] = any(cur.get(y) != d for y, d in prev.items() if y != x)
@@ -466,6 +495,61 @@ def run_group(programs):
 
 def _run_group_notexts(programs):
     return run_group(programs)[0]
+
+
+def _run_forked(ops):
+    """run_program in a FRESH copy of this (pristine) process: nothing an earlier program did to class level
+    state of frappy can be seen, so 'B built alone' really is alone"""
+    r, w = os.pipe()
+    pid = os.fork()
+    if pid == 0:
+        try:
+            os.close(r)
+            try:
+                out = json.dumps(run_program(ops))
+            except BaseException as e:       # (reported by the parent as a harness failure)
+                import traceback
+                out = json.dumps({'error': traceback.format_exc()[-1500:] or repr(e)})
+            with os.fdopen(w, 'w') as f:
+                f.write(out)
+        finally:
+            os._exit(0)
+    os.close(w)
+    with os.fdopen(r) as f:
+        data = f.read()
+    os.waitpid(pid, 0)
+    res = json.loads(data)
+    if isinstance(res, dict):
+        raise RuntimeError('forked run failed: ' + res['error'])
+    return res
+
+
+def _alone(ops):
+    """for a program of unrelated root classes: the sub-programs that build each root class alone"""
+    roots = [o['x'] for o in ops if o['act'] == 'defclass' and not o['bases']]
+    res = []
+    for x in roots:
+        mine, sub = {x}, []
+        for o in ops:
+            if (o['act'] == 'defclass' and (o['x'] == x or set(o['bases']) & mine and set(o['bases']) <= mine)) or \
+                    (o['act'] == 'instantiate' and o['c'] in mine) or (o['act'] == 'mutate' and o['x'] in mine):
+                mine.add(o['x'])
+                sub.append(o)
+        res.append(sub)
+    return res
+
+
+def run_isolated_group(ops):
+    """one trace: the whole program, then every root class built alone, each run in a fresh process.
+    The law of Trace_ClassModel then demands outcome(B alone) = outcome(B after A)"""
+    boot()
+    programs = [ops] + [s for s in _alone(ops) if s != ops]
+    trace = []
+    for i, p in enumerate(programs):
+        if i:
+            trace.append({'ev': 'reset', 'x': '', 'desc': {'_': '_'}, 'bad': [], 'dev': False, 'conf': ''})
+        trace += _run_forked(p)
+    return programs, trace
 
 
 # ------------------------------------------------------------------ random programs (code -> spec)
@@ -636,6 +720,19 @@ def run(chk):
         chk.add_tlc(r)
         behs += part
     phase('sany+mc+gen')
+    # class isolation against process-wide state: pairs of unrelated classes (arrays with different member types,
+    # member properties on the parameter / in the configuration), both orders, each run in a fresh process
+    r, iso = emit_behaviours('Gen_ClassModel', 'Gen_ClassModel_quick_iso.cfg' if quick else 'Gen_ClassModel_thorough_iso.cfg',
+                             maximal_only=False, timeout=600)
+    chk.add_tlc(r)
+    isoprogs, isotraces = [], []
+    for b in iso:
+        progs, tr = run_isolated_group(_ops(b))
+        isoprogs.append(progs)
+        isotraces.append(tr)
+        chk.impl_traces += len(progs)
+        chk.case(json.dumps(_ops(b), sort_keys=True), True)
+    phase('isolated')
     groups = {}
     for b in behs:
         groups.setdefault(_group_key(b), []).append(_ops(b))
@@ -663,7 +760,7 @@ def run(chk):
         for ops, evs in zip(g, runs):
             if len(evs) < len(ops) and not (evs and evs[-1]['bad']):
                 chk.violation({'module': 'ClassModel', 'clause': 'harness: program cut short'}, {'program': ops})
-    _judge(chk, traces, glist, 'Gen_ClassModel')
+    _judge(chk, traces + isotraces, glist + isoprogs, 'Gen_ClassModel')      # (one JVM for both)
     phase('judge')
     if traces:
         chk.sample({'program': glist[len(glist) // 2][0], 'desc_after_last_op': traces[len(glist) // 2][-1]['desc']})
